@@ -96,6 +96,9 @@ pub enum Op {
     DropOwner,
     /// add to the Counter field through the i-th handle clone (`&self` access)
     AddViaHandle(u8, u8),
+    /// release the owner through `Instrumented::from_parts((), owner).emit()` - for the keep-alive
+    /// protocol the same as dropping it
+    EmitOwner,
 }
 
 /// reference model of the keep-alive protocol
@@ -123,7 +126,7 @@ impl Model {
     }
     pub fn enabled(&self, op: Op) -> bool {
         match op {
-            Op::NewFlushGuard | Op::NewForceGuard | Op::Mutate(_) | Op::IntoHandle | Op::DropOwner => self.owner_alive,
+            Op::NewFlushGuard | Op::NewForceGuard | Op::Mutate(_) | Op::IntoHandle | Op::DropOwner | Op::EmitOwner => self.owner_alive,
             Op::DropFlushGuard(i) => (i as usize) < self.flush_guards.len(),
             Op::DropForceGuard(i) => (i as usize) < self.force_guards,
             Op::CloneHandle => self.handles > 0,
@@ -152,7 +155,7 @@ impl Model {
             }
             Op::CloneHandle => self.handles += 1,
             Op::DropHandle(_) => self.handles -= 1,
-            Op::DropOwner => self.owner_alive = false,
+            Op::DropOwner | Op::EmitOwner => self.owner_alive = false,
             Op::AddViaHandle(_, k) => self.c += k as u64,
         }
     }
@@ -198,6 +201,7 @@ impl Real {
             }
             Op::DropHandle(i) => drop(self.handles.remove(i as usize)),
             Op::DropOwner => drop(self.owner.take()),
+            Op::EmitOwner => metrique::instrument::Instrumented::from_parts((), self.owner.take().unwrap()).emit(),
             Op::AddViaHandle(i, k) => self.handles[i as usize].c.add(k as u64),
         }
     }
@@ -217,7 +221,7 @@ pub fn run_sequence(ops: &[Op]) -> Result<(Model, Real, Classes), Fail> {
         match op {
             Op::DropForceGuard(_) if m.flush_guards.iter().any(|h| *h) => classes.push("force-drop-while-flush-guards-alive"),
             Op::NewFlushGuard if m.force_dropped => classes.push("guard-created-after-force-drop"),
-            Op::DropOwner | Op::IntoHandle if !m.flush_guards.is_empty() => classes.push("guard-outlives-owner"),
+            Op::DropOwner | Op::IntoHandle | Op::EmitOwner if !m.flush_guards.is_empty() => classes.push("guard-outlives-owner"),
             Op::AddViaHandle(..) => classes.push("mutation-through-handle-after-owner-gone"),
             _ => {}
         }
@@ -540,6 +544,7 @@ pub fn arb_op() -> impl Strategy<Value = Op> {
         2 => Just(Op::CloneHandle),
         2 => (0u8..4).prop_map(Op::DropHandle),
         1 => Just(Op::DropOwner),
+        1 => Just(Op::EmitOwner),
         2 => (0u8..4, 1u8..50).prop_map(|(i, k)| Op::AddViaHandle(i, k)),
         // guards of any age, not only the oldest ones
         1 => (0u8..40).prop_map(Op::DropFlushGuard),
@@ -592,7 +597,7 @@ pub fn run(ctx: &mut Ctx) {
                     // keep something alive for the threads to drop (a force-guard drop in the prefix is kept in
                     // every third case: guards created after it do not hold the entry)
                     let keep_force_drop = threads % 3 == 0;
-                    ops.retain(|o| !matches!(o, Op::DropOwner) && (keep_force_drop || !matches!(o, Op::DropForceGuard(_))));
+                    ops.retain(|o| !matches!(o, Op::DropOwner | Op::EmitOwner) && (keep_force_drop || !matches!(o, Op::DropForceGuard(_))));
                     SeqCase {
                         ops,
                         threads,
